@@ -14,7 +14,9 @@ open Afkak.Group Afkak.Consts Afkak.Monitor.C16
     known finding `group-requests-during-stop-drain`): `ConsumerGroup.stop` drains the consumers before
     `Coordinator.stop` sets `_stopping`, and during the drain heartbeats continue and a pending rejoin may
     look the coordinator up.  Proved instead: nothing but the leave once `Coordinator.stop` has begun
-    (`C16_after_stop_only_leave`) and no JoinGroup once `stop()` was called (`C16_no_join_after_stop_called`). -/
+    (`C16_after_stop_only_leave`), no JoinGroup once `stop()` was called (`C16_no_join_after_stop_called`), and
+    THIS statement for every history in which no timer firing sends a request during the drain
+    (`C16_after_stop_called_only_leave_partial`, hypothesis `timerRequestDuringStopDrain cfg evs = false`). -/
 def C16_after_stop_called_only_leave : Prop := ∀ (cfg : Cfg) (evs : List Ev), strictAfterStop (toMSteps (run cfg evs)) = true
 
 /-- "Every consumer of the previous generation has been shut down — committing its progress unless
@@ -22,7 +24,9 @@ def C16_after_stop_called_only_leave : Prop := ∀ (cfg : Cfg) (evs : List Ev), 
     eviction or fatal error, or by the documented fallback when a shutdown fails.  FALSE of the code
     (`C16_graceful_drain_counterexample`, known finding `stop-kills-consumers-draining-for-rejoin`): a
     user `stop()` while a rejoin's `on_join_prepare` is draining finds `self.consumers` empty, goes
-    straight to `Coordinator.stop`, and cancelling the join kills the draining consumers mid-shutdown. -/
+    straight to `Coordinator.stop`, and cancelling the join kills the draining consumers mid-shutdown.
+    Proved for every history without that situation: `C16_graceful_drain_partial`
+    (hypothesis `stopKillsPrepareDrain cfg evs = false`). -/
 def C16_graceful_drain : Prop := ∀ (cfg : Cfg) (evs : List Ev), gracefulDrain (toMSteps (run cfg evs)) = true
 
 /-- The LeaveGroup request ends the member's generation: it is observed only in a step after which NO
@@ -34,7 +38,8 @@ def C16_graceful_drain : Prop := ∀ (cfg : Cfg) (evs : List Ev), gracefulDrain 
     refused now: `userStop`); and a `stop()` while a rejoin's `on_join_prepare` drains does the same
     (known finding `stop-kills-consumers-draining-for-rejoin`).  Proved instead
     (`C16_leave_after_drain_partial`): once `Coordinator.stop` has begun, outside those two situations
-    every consumer has stopped. -/
+    every consumer has stopped; and THIS statement for every history in which the leave never goes out in
+    one of the two situations (`C16_leave_after_drain_trace_partial`, hypothesis `leaveDuringDrain cfg evs = false`). -/
 def C16_leave_after_drain : Prop :=
   ∀ (cfg : Cfg) (evs : List Ev), Afkak.Monitor.C16Leave.leaveAfterDrain (toMSteps (run cfg evs)) = true
 
